@@ -206,9 +206,9 @@ def handleAGen (j : Json) : R Json := do
   let fuel ← natOf (← getF j "fuel")
   let g := stochAtomGraph els true
   match atomGenerate g fuel ev with
-  | .error e => pure (Json.mkObj [("ok", Json.bool false), ("err", Json.str (reprStr e))])
+  | .error e => pure (Json.mkObj [("ok", Json.bool false), ("err", Json.str (reprStr e)), ("closed", Json.bool (fillClosed g))])
   | .ok (s, tr, rest) =>
-    pure (Json.mkObj [("ok", Json.bool true),
+    pure (Json.mkObj [("ok", Json.bool true), ("closed", Json.bool (fillClosed g)),
       ("nodes", Json.arr (s.nodes.map fun n => natsToJson [n.stoch, n.z]).toArray),
       ("edges", Json.arr (s.edges.map fun e => natsToJson [e.1, e.2.1, e.2.2]).toArray),
       ("mw", ratsToJson s.mw),
